@@ -402,7 +402,8 @@ class Categorize(Factory, Container):
             else:
                 raise JsonFormatException(json, "Categorize.bins")
 
-            out = Categorize.ed(entries, contentType, **bins)
+            # (as a dict, not as keywords: a category may be named like a parameter, e.g. "entries")
+            out = Categorize.ed(entries, contentType, bins)
             out._emptyBinsName = dataName
             out.quantity.name = nameFromParent if name is None else name
             return out.specialize()
